@@ -11,6 +11,7 @@ import LekkerVerif.Model.HierParams
 import LekkerVerif.Model.HierParamsWF
 import LekkerVerif.Core.HierFlatten
 import LekkerVerif.Core.HierSplit
+import LekkerVerif.Core.HierPrune
 import LekkerVerif.Model.WiringNet
 import LekkerVerif.Core.WFCheck
 /-! Driver ops.  Each op runs executable definitions of the model on the decoded request. -/
@@ -351,6 +352,18 @@ def opHSplit (j : Json) : Json :=
           ("T", Json.arr (c.pins.map fun x => Json.arr (c.pins.map fun y => gratToJson (c.sem x y)).toArray).toArray)])).toArray)]
   | _ => errJson "parse"
 
+/-- op `hprune`: one level of `prune()` on the description (`HNet.pruneLevel`): the positions of the children that stay (those that
+present at least one pin) and the solve of the pruned level -/
+def opHPrune (j : Json) : Json :=
+  match (j.getObjVal? "tree").toOption >>= parseTree with
+  | some (.node cs links exposed) =>
+    let base := [("kept", toJson (HNet.liveSet cs)), ("wftree", (HNet.node cs links exposed).wfTreeB)]
+    match HNet.solveH Solve.pySched (HNet.pruneLevel (.node cs links exposed)) with
+    | .error e => Json.mkObj (base ++ [("err", Json.str (errName e))])
+    | .ok c => Json.mkObj (base ++ [("pins", toJson c.pins),
+        ("T", Json.arr (c.pins.map fun x => Json.arr (c.pins.map fun y => gratToJson (c.sem x y)).toArray).toArray)])
+  | _ => errJson "parse"
+
 /-- op `monsolve`: the monitor path of `Solver.solve` (`Monitor.solveMonitored` with the pin-count heuristic) -/
 def opMonSolve (j : Json) : Json :=
   match fromJson? (α := CaseJ) j with
@@ -390,6 +403,7 @@ def dispatch (j : Json) : Json :=
   | some "hsolve" => opHSolve j
   | some "hflatten" => opHFlatten j
   | some "hsplit" => opHSplit j
+  | some "hprune" => opHPrune j
   | some "wsolve" => opWSolve j
   | some "phsolve" => opPHSolve j
   | some "pflatten" => opPFlatten j
